@@ -7,10 +7,10 @@ from props import c20
 OBLIGATIONS = dict(
     prop_file='Properties/C15.v',
     glue=['Glue/InventoryFacts.v'] + [f'Glue/Pin_{n}.v' for n in ('inv_euclid', 'inv_cosine', 'inv_vq', 'inv_fsq', 'inv_lfq', 'inv_simvq', 'inv_rpq', 'inv_rfsq', 'inv_lq',
-                                                                 'npinit_vq', 'npinit_fsq', 'npinit_lfq', 'npinit_rfsq', 'npinit_lq')],
+                                                                 'npinit_vq', 'npinit_fsq', 'npinit_lfq', 'npinit_rfsq', 'npinit_lq')] + ['Glue/Pin_fp_C15.v'],
     extra=['Model/Params.vo'],
     gen_items=['inv_euclid', 'inv_cosine', 'inv_vq', 'inv_fsq', 'inv_lfq', 'inv_simvq', 'inv_rpq', 'inv_rfsq', 'inv_lq', 'inv_rvq', 'inv_rlfq', 'inv_rsvq',
-               'npinit_vq', 'npinit_fsq', 'npinit_lfq', 'npinit_rfsq', 'npinit_lq', 'w_euclid', 'w_cosine'],
+               'npinit_vq', 'npinit_fsq', 'npinit_lfq', 'npinit_rfsq', 'npinit_lq', 'w_euclid', 'w_cosine', 'fp_C15'],
 )
 ASSUMPTIONS = [
     'torch state_dict / load_state_dict save and restore exactly the persistent buffers and parameters (modelled by persist / rebuild on a named store; validated by the live-registry comparison and by the behavioural round trip)',
